@@ -63,8 +63,13 @@ def run_rules(root, prop, spec):
     fx = F.export(root=root)
     ctx = engine.Ctx(fx, root, prop, "thorough")
     for rule in spec["rules"]:
-        rule(ctx)
-    return {i.key for i in ctx.instances if not i.ok}, len(ctx.instances)
+        ctx.run_rule(rule)
+    bad = {i.key for i in ctx.instances if not i.ok}
+    broken = getattr(ctx, "broken", [])
+    if broken and not bad:
+        raise F.AnalysisBroken("; ".join(broken))
+    run_rules.last_broken = broken
+    return bad, len(ctx.instances)
 
 
 def self_validate(prop, spec, root="/repo", base_bad=None):
@@ -94,6 +99,12 @@ def self_validate(prop, spec, root="/repo", base_bad=None):
                 broken.append("%s: %s" % (m["_path"], str(e)[:200]))
                 continue
             new = sorted(bad - base_bad)
+            part = getattr(run_rules, "last_broken", [])
+            if part and (m.get("benign") or not new):
+                # a rule that cannot run on a behaviour-preserving edit is a checker failure (exit 2 for the user)
+                results.append({"mutant": m["_path"], "status": "exporter-or-rule-failed", "detail": "; ".join(part)[:300]})
+                broken.append("%s: %s" % (m["_path"], "; ".join(part)[:200]))
+                continue
             if m.get("benign"):
                 if new:
                     results.append({"mutant": m["_path"], "status": "FALSE-ALARM", "new_bad": new[:10]})
